@@ -131,6 +131,16 @@ func init() {
 				{File: d, Old: "\tidx := strings.Index(domain, \".\")\n\tif idx > 0 && idx < len(domain)-1 {\n\t\tbaseDomain := domain[idx+1:]\n\t\tif routes, ok := t.wildcardBase[baseDomain]; ok && len(routes) > 0 {\n\t\t\treturn routes[0].Clone()\n\t\t}\n\t}\n", New: "\tif parent := wildcardParentOf(domain); parent != \"\" {\n\t\tif routes := t.wildcardBase[parent]; len(routes) > 0 {\n\t\t\treturn routes[0].Clone()\n\t\t}\n\t}\n"},
 				{File: d, Old: "// lookupUnlocked performs lookup without locking (caller must hold lock).\nfunc (t *DomainTable) lookupUnlocked", New: "func wildcardParentOf(name string) string {\n\t_, rest, found := strings.Cut(name, \".\")\n\tif !found || strings.HasPrefix(name, \".\") {\n\t\treturn \"\"\n\t}\n\treturn rest\n}\n\n// lookupUnlocked performs lookup without locking (caller must hold lock).\nfunc (t *DomainTable) lookupUnlocked"},
 			}},
+			{Name: "round3b rewrite: generic retain helpers, IndexFunc + slices.Delete (C10/a shape)", Edits: []Edit{
+				{File: ag, Old: "import (\n\t\"fmt\"\n", New: "import (\n\t\"slices\"\n\t\"fmt\"\n"},
+				{File: ag, Old: "// AddRoute adds or updates an agent presence route in the table.\n// Returns true if the route was added/updated, false if rejected (e.g., loop detected).\nfunc (t *AgentTable) AddRoute(route *AgentRoute) bool {\n\tif route == nil {\n\t\treturn false\n\t}\n\n\t// Check for routing loops (is our ID in the path?)\n\tfor _, id := range route.Path {\n\t\tif id == t.localID {\n\t\t\treturn false // Loop detected\n\t\t}\n\t}\n\n\tt.mu.Lock()\n\tdefer t.mu.Unlock()\n\n\tkey := route.AgentID\n\n\t// Check if we already have a route from this origin via this next hop\n\tfor i, r := range t.routes[key] {\n\t\tif r.OriginAgent == route.OriginAgent && r.NextHop == route.NextHop {\n\t\t\t// Update if newer sequence or better metric\n\t\t\tif route.Sequence > r.Sequence ||\n\t\t\t\t(route.Sequence == r.Sequence && route.Metric < r.Metric) {\n\t\t\t\tcloned := route.Clone()\n\t\t\t\tcloned.LastUpdate = time.Now()\n\t\t\t\tt.routes[key][i] = cloned\n\t\t\t\tt.sortRoutes(key)\n\t\t\t\treturn true\n\t\t\t}\n\t\t\treturn false // Older/worse route\n\t\t}\n\t}\n\n\t// New route from this origin/nexthop\n\tcloned := route.Clone()\n\tcloned.LastUpdate = time.Now()\n\tt.routes[key] = append(t.routes[key], cloned)\n\tt.sortRoutes(key)\n\treturn true\n}\n\n// sortRoutes sorts routes for an agent by metric (lowest first).\nfunc (t *AgentTable) sortRoutes(key identity.AgentID) {\n\troutes := t.routes[key]\n\tsort.Slice(routes, func(i, j int) bool {\n\t\treturn routes[i].Metric < routes[j].Metric\n\t})\n}\n\n// RemoveRoute removes an agent presence route from a specific origin.\nfunc (t *AgentTable) RemoveRoute(agentID, originAgent identity.AgentID) bool {\n\tt.mu.Lock()\n\tdefer t.mu.Unlock()\n\n\troutes := t.routes[agentID]\n\tfor i, r := range routes {\n\t\tif r.OriginAgent == originAgent {\n\t\t\tt.routes[agentID] = append(routes[:i], routes[i+1:]...)\n\t\t\tif len(t.routes[agentID]) == 0 {\n\t\t\t\tdelete(t.routes, agentID)\n\t\t\t}\n\t\t\treturn true\n\t\t}\n\t}\n\treturn false\n}\n\n// RemoveRoutesFromPeer removes all agent routes learned from a specific peer.\nfunc (t *AgentTable) RemoveRoutesFromPeer(peerID identity.AgentID) int {\n\tt.mu.Lock()\n\tdefer t.mu.Unlock()\n\n\tcount := 0\n\tfor agentID, routes := range t.routes {\n\t\tfiltered := routes[:0]\n\t\tfor _, r := range routes {\n\t\t\tif r.NextHop != peerID {\n\t\t\t\tfiltered = append(filtered, r)\n\t\t\t} else {\n\t\t\t\tcount++\n\t\t\t}\n\t\t}\n\t\tif len(filtered) == 0 {\n\t\t\tdelete(t.routes, agentID)\n\t\t} else {\n\t\t\tt.routes[agentID] = filtered\n\t\t}\n\t}\n\treturn count\n}\n", New: "// AddRoute adds or updates an agent presence route in the table.\n// Returns true if the route was added/updated, false if rejected (e.g., loop detected).\nfunc (t *AgentTable) AddRoute(route *AgentRoute) bool {\n\tif route == nil {\n\t\treturn false\n\t}\n\n\t// Check for routing loops (is our ID in the path?)\n\tif pathHasLoop(route.Path, t.localID) {\n\t\treturn false\n\t}\n\n\tt.mu.Lock()\n\tdefer t.mu.Unlock()\n\n\tkey := route.AgentID\n\n\t// Check if we already have a route from this origin via this next hop\n\tbucket := t.routes[key]\n\tidx := slices.IndexFunc(bucket, func(r *AgentRoute) bool {\n\t\treturn r.OriginAgent == route.OriginAgent && r.NextHop == route.NextHop\n\t})\n\tif idx >= 0 {\n\t\t// Update only if newer sequence or better metric\n\t\tstored := bucket[idx]\n\t\tif !supersedes(route.Sequence, route.Metric, stored.Sequence, stored.Metric) {\n\t\t\treturn false // Older/worse route\n\t\t}\n\t}\n\n\tcloned := route.Clone()\n\tcloned.LastUpdate = time.Now()\n\tif idx >= 0 {\n\t\tbucket[idx] = cloned\n\t} else {\n\t\t// New route from this origin/nexthop\n\t\tt.routes[key] = append(bucket, cloned)\n\t}\n\tt.sortRoutes(key)\n\treturn true\n}\n\n// sortRoutes sorts routes for an agent by metric (lowest first).\nfunc (t *AgentTable) sortRoutes(key identity.AgentID) {\n\troutes := t.routes[key]\n\tsort.Slice(routes, func(i, j int) bool {\n\t\treturn routes[i].Metric < routes[j].Metric\n\t})\n}\n\n// RemoveRoute removes an agent presence route from a specific origin.\nfunc (t *AgentTable) RemoveRoute(agentID, originAgent identity.AgentID) bool {\n\tt.mu.Lock()\n\tdefer t.mu.Unlock()\n\n\tbucket := t.routes[agentID]\n\tidx := slices.IndexFunc(bucket, func(r *AgentRoute) bool {\n\t\treturn r.OriginAgent == originAgent\n\t})\n\tif idx < 0 {\n\t\treturn false\n\t}\n\n\tbucket = slices.Delete(bucket, idx, idx+1)\n\tif len(bucket) == 0 {\n\t\tdelete(t.routes, agentID)\n\t} else {\n\t\tt.routes[agentID] = bucket\n\t}\n\treturn true\n}\n\n// RemoveRoutesFromPeer removes all agent routes learned from a specific peer.\nfunc (t *AgentTable) RemoveRoutesFromPeer(peerID identity.AgentID) int {\n\tt.mu.Lock()\n\tdefer t.mu.Unlock()\n\n\tnotViaPeer := func(r *AgentRoute) bool { return r.NextHop != peerID }\n\n\tcount := 0\n\tfor agentID, routes := range t.routes {\n\t\tremaining, dropped := retainInPlace(routes, notViaPeer)\n\t\tcount += dropped\n\t\tif len(remaining) == 0 {\n\t\t\tdelete(t.routes, agentID)\n\t\t} else {\n\t\t\tt.routes[agentID] = remaining\n\t\t}\n\t}\n\treturn count\n}\n\n// pathHasLoop reports whether the local agent already appears in an\n// advertised path, i.e. accepting the route would create a routing loop.\nfunc pathHasLoop(path []identity.AgentID, localID identity.AgentID) bool {\n\treturn slices.Contains(path, localID)\n}\n\n// supersedes reports whether an advertisement carrying (newSeq, newMetric)\n// replaces a stored entry carrying (oldSeq, oldMetric): a newer sequence always\n// wins, the same sequence wins only with a strictly better metric.\nfunc supersedes(newSeq uint64, newMetric uint16, oldSeq uint64, oldMetric uint16) bool {\n\tif newSeq != oldSeq {\n\t\treturn newSeq > oldSeq\n\t}\n\treturn newMetric < oldMetric\n}\n\n// retainInPlace keeps the entries for which keep returns true, reusing the\n// backing array of routes. It returns the kept entries and how many were dropped.\nfunc retainInPlace[R any](routes []R, keep func(R) bool) ([]R, int) {\n\tkept := routes[:0]\n\tdropped := 0\n\tfor _, r := range routes {\n\t\tif keep(r) {\n\t\t\tkept = append(kept, r)\n\t\t} else {\n\t\t\tdropped++\n\t\t}\n\t}\n\treturn kept, dropped\n}\n\n// retainCopy keeps the entries for which keep returns true in a freshly\n// allocated slice (nil when nothing is kept), leaving routes untouched.\n// It returns the kept entries and how many were dropped.\nfunc retainCopy[R any](routes []R, keep func(R) bool) ([]R, int) {\n\tvar kept []R\n\tdropped := 0\n\tfor _, r := range routes {\n\t\tif keep(r) {\n\t\t\tkept = append(kept, r)\n\t\t} else {\n\t\t\tdropped++\n\t\t}\n\t}\n\treturn kept, dropped\n}\n"},
+				{File: ag, Old: "// CleanupStaleRoutes removes agent routes that haven't been updated within maxAge.\n// Local routes (where OriginAgent == localID) are never removed.\n// Returns the number of routes removed.\nfunc (t *AgentTable) CleanupStaleRoutes(maxAge time.Duration) int {\n\tt.mu.Lock()\n\tdefer t.mu.Unlock()\n\n\tnow := time.Now()\n\tremoved := 0\n\n\tfor agentID, routes := range t.routes {\n\t\tvar kept []*AgentRoute\n\t\tfor _, r := range routes {\n\t\t\tif r.OriginAgent == t.localID || now.Sub(r.LastUpdate) <= maxAge {\n\t\t\t\tkept = append(kept, r)\n\t\t\t} else {\n\t\t\t\tremoved++\n\t\t\t}\n\t\t}\n\t\tif len(kept) > 0 {\n\t\t\tt.routes[agentID] = kept\n\t\t} else {\n\t\t\tdelete(t.routes, agentID)\n\t\t}\n\t}\n\treturn removed\n}\n", New: "// CleanupStaleRoutes removes agent routes that haven't been updated within maxAge.\n// Local routes (where OriginAgent == localID) are never removed.\n// Returns the number of routes removed.\nfunc (t *AgentTable) CleanupStaleRoutes(maxAge time.Duration) int {\n\tt.mu.Lock()\n\tdefer t.mu.Unlock()\n\n\tnow := time.Now()\n\tlocalOrFresh := func(r *AgentRoute) bool {\n\t\treturn r.OriginAgent == t.localID || now.Sub(r.LastUpdate) <= maxAge\n\t}\n\n\tremoved := 0\n\tfor agentID, routes := range t.routes {\n\t\tkept, dropped := retainCopy(routes, localOrFresh)\n\t\tremoved += dropped\n\t\tif len(kept) > 0 {\n\t\t\tt.routes[agentID] = kept\n\t\t} else {\n\t\t\tdelete(t.routes, agentID)\n\t\t}\n\t}\n\treturn removed\n}\n"},
+			}},
+			{Name: "round3b: AddRoute in IndexFunc form no longer sorts after an update", ExpectRule: "C09.R4", ExpectKey: "AgentTable", Edits: []Edit{
+				{File: ag, Old: "import (\n\t\"fmt\"\n", New: "import (\n\t\"slices\"\n\t\"fmt\"\n"},
+				{File: ag, Old: "// AddRoute adds or updates an agent presence route in the table.\n// Returns true if the route was added/updated, false if rejected (e.g., loop detected).\nfunc (t *AgentTable) AddRoute(route *AgentRoute) bool {\n\tif route == nil {\n\t\treturn false\n\t}\n\n\t// Check for routing loops (is our ID in the path?)\n\tfor _, id := range route.Path {\n\t\tif id == t.localID {\n\t\t\treturn false // Loop detected\n\t\t}\n\t}\n\n\tt.mu.Lock()\n\tdefer t.mu.Unlock()\n\n\tkey := route.AgentID\n\n\t// Check if we already have a route from this origin via this next hop\n\tfor i, r := range t.routes[key] {\n\t\tif r.OriginAgent == route.OriginAgent && r.NextHop == route.NextHop {\n\t\t\t// Update if newer sequence or better metric\n\t\t\tif route.Sequence > r.Sequence ||\n\t\t\t\t(route.Sequence == r.Sequence && route.Metric < r.Metric) {\n\t\t\t\tcloned := route.Clone()\n\t\t\t\tcloned.LastUpdate = time.Now()\n\t\t\t\tt.routes[key][i] = cloned\n\t\t\t\tt.sortRoutes(key)\n\t\t\t\treturn true\n\t\t\t}\n\t\t\treturn false // Older/worse route\n\t\t}\n\t}\n\n\t// New route from this origin/nexthop\n\tcloned := route.Clone()\n\tcloned.LastUpdate = time.Now()\n\tt.routes[key] = append(t.routes[key], cloned)\n\tt.sortRoutes(key)\n\treturn true\n}\n\n// sortRoutes sorts routes for an agent by metric (lowest first).\nfunc (t *AgentTable) sortRoutes(key identity.AgentID) {\n\troutes := t.routes[key]\n\tsort.Slice(routes, func(i, j int) bool {\n\t\treturn routes[i].Metric < routes[j].Metric\n\t})\n}\n\n// RemoveRoute removes an agent presence route from a specific origin.\nfunc (t *AgentTable) RemoveRoute(agentID, originAgent identity.AgentID) bool {\n\tt.mu.Lock()\n\tdefer t.mu.Unlock()\n\n\troutes := t.routes[agentID]\n\tfor i, r := range routes {\n\t\tif r.OriginAgent == originAgent {\n\t\t\tt.routes[agentID] = append(routes[:i], routes[i+1:]...)\n\t\t\tif len(t.routes[agentID]) == 0 {\n\t\t\t\tdelete(t.routes, agentID)\n\t\t\t}\n\t\t\treturn true\n\t\t}\n\t}\n\treturn false\n}\n\n// RemoveRoutesFromPeer removes all agent routes learned from a specific peer.\nfunc (t *AgentTable) RemoveRoutesFromPeer(peerID identity.AgentID) int {\n\tt.mu.Lock()\n\tdefer t.mu.Unlock()\n\n\tcount := 0\n\tfor agentID, routes := range t.routes {\n\t\tfiltered := routes[:0]\n\t\tfor _, r := range routes {\n\t\t\tif r.NextHop != peerID {\n\t\t\t\tfiltered = append(filtered, r)\n\t\t\t} else {\n\t\t\t\tcount++\n\t\t\t}\n\t\t}\n\t\tif len(filtered) == 0 {\n\t\t\tdelete(t.routes, agentID)\n\t\t} else {\n\t\t\tt.routes[agentID] = filtered\n\t\t}\n\t}\n\treturn count\n}\n", New: "// AddRoute adds or updates an agent presence route in the table.\n// Returns true if the route was added/updated, false if rejected (e.g., loop detected).\nfunc (t *AgentTable) AddRoute(route *AgentRoute) bool {\n\tif route == nil {\n\t\treturn false\n\t}\n\n\t// Check for routing loops (is our ID in the path?)\n\tif pathHasLoop(route.Path, t.localID) {\n\t\treturn false\n\t}\n\n\tt.mu.Lock()\n\tdefer t.mu.Unlock()\n\n\tkey := route.AgentID\n\n\t// Check if we already have a route from this origin via this next hop\n\tbucket := t.routes[key]\n\tidx := slices.IndexFunc(bucket, func(r *AgentRoute) bool {\n\t\treturn r.OriginAgent == route.OriginAgent && r.NextHop == route.NextHop\n\t})\n\tif idx >= 0 {\n\t\t// Update only if newer sequence or better metric\n\t\tstored := bucket[idx]\n\t\tif !supersedes(route.Sequence, route.Metric, stored.Sequence, stored.Metric) {\n\t\t\treturn false // Older/worse route\n\t\t}\n\t}\n\n\tcloned := route.Clone()\n\tcloned.LastUpdate = time.Now()\n\tif idx >= 0 {\n\t\tbucket[idx] = cloned\n\t} else {\n\t\t// New route from this origin/nexthop\n\t\tt.routes[key] = append(bucket, cloned)\n\t\tt.sortRoutes(key)\n\t}\n\treturn true\n}\n\n// sortRoutes sorts routes for an agent by metric (lowest first).\nfunc (t *AgentTable) sortRoutes(key identity.AgentID) {\n\troutes := t.routes[key]\n\tsort.Slice(routes, func(i, j int) bool {\n\t\treturn routes[i].Metric < routes[j].Metric\n\t})\n}\n\n// RemoveRoute removes an agent presence route from a specific origin.\nfunc (t *AgentTable) RemoveRoute(agentID, originAgent identity.AgentID) bool {\n\tt.mu.Lock()\n\tdefer t.mu.Unlock()\n\n\tbucket := t.routes[agentID]\n\tidx := slices.IndexFunc(bucket, func(r *AgentRoute) bool {\n\t\treturn r.OriginAgent == originAgent\n\t})\n\tif idx < 0 {\n\t\treturn false\n\t}\n\n\tbucket = slices.Delete(bucket, idx, idx+1)\n\tif len(bucket) == 0 {\n\t\tdelete(t.routes, agentID)\n\t} else {\n\t\tt.routes[agentID] = bucket\n\t}\n\treturn true\n}\n\n// RemoveRoutesFromPeer removes all agent routes learned from a specific peer.\nfunc (t *AgentTable) RemoveRoutesFromPeer(peerID identity.AgentID) int {\n\tt.mu.Lock()\n\tdefer t.mu.Unlock()\n\n\tnotViaPeer := func(r *AgentRoute) bool { return r.NextHop != peerID }\n\n\tcount := 0\n\tfor agentID, routes := range t.routes {\n\t\tremaining, dropped := retainInPlace(routes, notViaPeer)\n\t\tcount += dropped\n\t\tif len(remaining) == 0 {\n\t\t\tdelete(t.routes, agentID)\n\t\t} else {\n\t\t\tt.routes[agentID] = remaining\n\t\t}\n\t}\n\treturn count\n}\n\n// pathHasLoop reports whether the local agent already appears in an\n// advertised path, i.e. accepting the route would create a routing loop.\nfunc pathHasLoop(path []identity.AgentID, localID identity.AgentID) bool {\n\treturn slices.Contains(path, localID)\n}\n\n// supersedes reports whether an advertisement carrying (newSeq, newMetric)\n// replaces a stored entry carrying (oldSeq, oldMetric): a newer sequence always\n// wins, the same sequence wins only with a strictly better metric.\nfunc supersedes(newSeq uint64, newMetric uint16, oldSeq uint64, oldMetric uint16) bool {\n\tif newSeq != oldSeq {\n\t\treturn newSeq > oldSeq\n\t}\n\treturn newMetric < oldMetric\n}\n\n// retainInPlace keeps the entries for which keep returns true, reusing the\n// backing array of routes. It returns the kept entries and how many were dropped.\nfunc retainInPlace[R any](routes []R, keep func(R) bool) ([]R, int) {\n\tkept := routes[:0]\n\tdropped := 0\n\tfor _, r := range routes {\n\t\tif keep(r) {\n\t\t\tkept = append(kept, r)\n\t\t} else {\n\t\t\tdropped++\n\t\t}\n\t}\n\treturn kept, dropped\n}\n\n// retainCopy keeps the entries for which keep returns true in a freshly\n// allocated slice (nil when nothing is kept), leaving routes untouched.\n// It returns the kept entries and how many were dropped.\nfunc retainCopy[R any](routes []R, keep func(R) bool) ([]R, int) {\n\tvar kept []R\n\tdropped := 0\n\tfor _, r := range routes {\n\t\tif keep(r) {\n\t\t\tkept = append(kept, r)\n\t\t} else {\n\t\t\tdropped++\n\t\t}\n\t}\n\treturn kept, dropped\n}\n"},
+				{File: ag, Old: "// CleanupStaleRoutes removes agent routes that haven't been updated within maxAge.\n// Local routes (where OriginAgent == localID) are never removed.\n// Returns the number of routes removed.\nfunc (t *AgentTable) CleanupStaleRoutes(maxAge time.Duration) int {\n\tt.mu.Lock()\n\tdefer t.mu.Unlock()\n\n\tnow := time.Now()\n\tremoved := 0\n\n\tfor agentID, routes := range t.routes {\n\t\tvar kept []*AgentRoute\n\t\tfor _, r := range routes {\n\t\t\tif r.OriginAgent == t.localID || now.Sub(r.LastUpdate) <= maxAge {\n\t\t\t\tkept = append(kept, r)\n\t\t\t} else {\n\t\t\t\tremoved++\n\t\t\t}\n\t\t}\n\t\tif len(kept) > 0 {\n\t\t\tt.routes[agentID] = kept\n\t\t} else {\n\t\t\tdelete(t.routes, agentID)\n\t\t}\n\t}\n\treturn removed\n}\n", New: "// CleanupStaleRoutes removes agent routes that haven't been updated within maxAge.\n// Local routes (where OriginAgent == localID) are never removed.\n// Returns the number of routes removed.\nfunc (t *AgentTable) CleanupStaleRoutes(maxAge time.Duration) int {\n\tt.mu.Lock()\n\tdefer t.mu.Unlock()\n\n\tnow := time.Now()\n\tlocalOrFresh := func(r *AgentRoute) bool {\n\t\treturn r.OriginAgent == t.localID || now.Sub(r.LastUpdate) <= maxAge\n\t}\n\n\tremoved := 0\n\tfor agentID, routes := range t.routes {\n\t\tkept, dropped := retainCopy(routes, localOrFresh)\n\t\tremoved += dropped\n\t\tif len(kept) > 0 {\n\t\t\tt.routes[agentID] = kept\n\t\t} else {\n\t\t\tdelete(t.routes, agentID)\n\t\t}\n\t}\n\treturn removed\n}\n"},
+			}},
 			// rewrites
 			{Name: "rewrite: strings.Cut, negated conditions", Edits: []Edit{
 				{File: d, Old: "\tidx := strings.Index(domain, \".\")\n\tif idx > 0 && idx < len(domain)-1 {\n\t\tbaseDomain := domain[idx+1:]\n\t\tif routes, ok := t.wildcardBase[baseDomain]; ok && len(routes) > 0 {\n\t\t\treturn routes[0].Clone()\n\t\t}\n\t}\n", New: "\tlabel, baseDomain, found := strings.Cut(domain, \".\")\n\tif !found || label == \"\" || baseDomain == \"\" {\n\t\treturn nil\n\t}\n\troutes := t.wildcardBase[baseDomain]\n\tif len(routes) == 0 {\n\t\treturn nil\n\t}\n\treturn routes[0].Clone()\n"},
@@ -186,6 +196,43 @@ func runC09(p *kit.Program, r *kit.Report) {
 	}
 	r.Require(len(keyed) >= 2, "floor: expected at least 2 keyed tables (forward, agent), found %d", len(keyed))
 
+	// bounded model of the tables (shape-independent): obligations of its own, and second
+	// opinion on what the structural rules do not recognise
+	sem := m.sem()
+	for _, t := range others {
+		sem.report(r, "C09.R4", "sorted", "buckets stay sorted by metric under every operation", t,
+			"element 0 of a bucket is not the lowest metric, which is the route lookups return")
+	}
+	sem.report(r, "C09.R1", "domain", "Lookup: exact before single-label wildcard, case-insensitive, lowest metric", dom,
+		"the domain lookup does not select the documented best route")
+	for _, t := range keyed {
+		sem.report(r, "C09.R5", "keyed", "Lookup returns the lowest metric of exactly the requested key", t,
+			"the keyed lookup does not return the lowest-metric route of the key")
+	}
+	defer sem.override(r, func(rule, key, detail string) string {
+		switch rule {
+		case "C09.R4":
+			if (strings.Contains(key, " bucket ") || strings.Contains(key, " sort #")) && !strings.HasSuffix(key, " lock") {
+				return "sorted"
+			}
+		case "C09.R1":
+			if strings.HasSuffix(key, "exact before wildcard") {
+				return "domain"
+			}
+		case "C09.R2", "C09.R3":
+			return "domain"
+		case "C09.R5":
+			if strings.HasSuffix(key, " result") {
+				return "keyed"
+			}
+		}
+		return ""
+	}, func(floor string) (string, *c08Table) {
+		if strings.HasPrefix(floor, "floor:") && !strings.Contains(floor, "keyed tables") {
+			return "sorted", m.tableNamed(floor)
+		}
+		return "", nil
+	})
 	// ---- R4
 	counts := m.checkSorted(r, "C09.R4", "C09.R4", others)
 	for k, v := range counts {
@@ -650,6 +697,7 @@ func (m *c08Model) c09Keyed(r *kit.Report, t *c08Table) {
 			bad = "with no (or an empty) bucket for the key the lookup still returns a route"
 		}
 	}
+	m.note("C09.R5", name+" result", t)
 	r.Decide(bad == "", "C09.R5", name+" result", p.Pos(scan.Pos()),
 		"hit: element 0 of the bucket of the requested key; miss: nil", bad)
 	shape := m.c09ReturnShape(t, scan, func(f *types.Var, key ssa.Value) bool {
@@ -936,6 +984,9 @@ func (m *c08Model) c09Domain(r *kit.Report, t *c08Table) {
 			r1bad = append(r1bad, desc+": returns a route although nothing matches")
 		}
 	}
+	m.note("C09.R1", name+" exact before wildcard", t)
+	m.note("C09.R2", name+" single-label wildcard", t)
+	m.note("C09.R3", t.name+" key case folding", t)
 	r.Decide(len(r1bad) == 0, "C09.R1", name+" exact before wildcard", pos,
 		"4 scenarios: exact hit -> exact[name][0]; else wildcard hit -> wildcard[suffix][0]; else nil",
 		"domain lookup does not prefer the exact pattern / lowest metric: "+strings.Join(r1bad, "; "))
@@ -1028,8 +1079,8 @@ func (m *c08Model) c09Domain(r *kit.Report, t *c08Table) {
 	})
 	nIns := 0
 	for _, ev := range m.events {
-		if ev.tbl != t || ev.kind != "insert" {
-			continue
+		if ev.tbl != t || ev.kind != "insert" || c10RouteParam(ev.fn, t) == nil {
+			continue // only writes that introduce a new route choose a key
 		}
 		nIns++
 		f := m.c09Fold(ev.bucket.keyVal, 0)
